@@ -53,3 +53,102 @@ canary('c16-creation-const', 'C16', PA, """                id,
                 self.creation.load(Ordering::Relaxed),""", """                id,
                 serial,
                 0,""", 'creation')
+
+# ---- C04 ----
+SMF = 'crates/edp_client/src/state_machine.rs'
+HSF = 'crates/edp_client/src/handshake.rs'
+DIG = 'crates/edp_client/src/digest.rs'
+CONN = 'crates/edp_client/src/connection.rs'
+TRN = 'crates/edp_client/src/transport.rs'
+canary('c04-no-verify', 'C04', SMF, """        if !ack.verify(our_challenge, &self.cookie) {
+            return Err(Error::AuthenticationFailed);
+        }
+""", """        let _ = ack.verify(our_challenge, &self.cookie);
+""", 'connected-without-verify')
+canary('c04-verify-their', 'C04', SMF, """        let our_challenge = self
+            .our_challenge
+            .ok_or_else(|| Error::InvalidStateMessage("no our_challenge set".to_string()))?;
+
+        if !ack.verify""", """        let our_challenge = self
+            .their_challenge
+            .ok_or_else(|| Error::InvalidStateMessage("no our_challenge set".to_string()))?;
+
+        if !ack.verify""", 'verify-args')
+canary('c04-flags-or', 'C04', SMF, 'challenge.flags.as_u64() & self.flags.as_u64()', 'challenge.flags.as_u64() | self.flags.as_u64()', 'negotiated_flags')
+canary('c04-reply-swap', 'C04', SMF, 'ChallengeReply::new(our_challenge, their_challenge, &self.cookie)', 'ChallengeReply::new(their_challenge, our_challenge, &self.cookie)', 'prepare_challenge_reply:args')
+canary('c04-reply-digest-ours', 'C04', HSF, """    pub fn new(our_challenge: u32, their_challenge: u32, cookie: &str) -> Self {
+        let digest = digest::compute_digest(their_challenge, cookie);""", """    pub fn new(our_challenge: u32, their_challenge: u32, cookie: &str) -> Self {
+        let digest = digest::compute_digest(our_challenge, cookie);""", 'ChallengeReply::new')
+canary('c04-disconnect-keeps', 'C04', SMF, """        self.state = ConnectionState::Disconnected;
+        self.our_challenge = None;""", """        self.state = ConnectionState::Disconnected;""", 'FIELDSET')
+canary('c04-digest-order', 'C04', DIG, 'format!("{}{}", cookie, challenge_str)', 'format!("{}{}", challenge_str, cookie)', 'compute_digest')
+canary('c04-digest-sep', 'C04', DIG, 'format!("{}{}", cookie, challenge_str)', 'format!("{}:{}", cookie, challenge_str)', 'compute_digest')
+canary('c04-complement-width', 'C04', SMF, """        buf.put_u32(high_flags);
+        buf.put_u32(self.creation.0);""", """        buf.put_u32(high_flags);
+        buf.put_u16(self.creation.0 as u16);""", 'prepare_complement')
+canary('c04-reply-tag', 'C04', HSF, "        buf.put_u16(21);\n        buf.put_u8(b'r');", "        buf.put_u16(21);\n        buf.put_u8(b'R');", 'ChallengeReply::encode')
+canary('c04-ack-guard', 'C04', HSF, """        if buf.remaining() < 16 {
+            return Err(Error::InvalidHandshakeMessage(
+                "Insufficient data for digest".to_string(),""", """        if buf.remaining() < 15 {
+            return Err(Error::InvalidHandshakeMessage(
+                "Insufficient data for digest".to_string(),""", 'PANIC')
+canary('c04-frame-mode-early', 'C04', CONN, """        self.receive_challenge_ack().await?;
+
+        self.transport.set_frame_mode(FrameMode::Distribution);""", """        self.transport.set_frame_mode(FrameMode::Distribution);
+        self.receive_challenge_ack().await?;
+""", 'frame-mode')
+canary('c04-ack-unpropagated', 'C04', CONN, '        self.receive_challenge_ack().await?;\n\n        self.transport', '        let _ = self.receive_challenge_ack().await;\n\n        self.transport', 'ORDER')
+canary('c04-write-no-timeout', 'C04', TRN, """        tokio::time::timeout(self.timeout, async {
+            stream.write_all(data).await?;
+            stream.flush().await
+        })
+        .await
+        .map_err(|_| Error::Timeout(self.timeout))?
+        .map_err(Error::Io)""", """        async {
+            stream.write_all(data).await?;
+            stream.flush().await
+        }
+        .await
+        .map_err(Error::Io)""", 'TIMEOUT')
+canary('c04-state-pub-write', 'C04', SMF, '    pub fn handle_status(&mut self, data: &[u8]) -> Result<()> {\n', '    pub fn handle_status(&mut self, data: &[u8]) -> Result<()> {\n        if data.len() == 77 { self.state = ConnectionState::Connected; }\n', 'DOM')
+canary('c04-challenge-field-order', 'C04', HSF, """        let flags = DistributionFlags::new(buf.get_u64());
+        let challenge = buf.get_u32();
+        let creation = buf.get_u32();
+        let name_len = buf.get_u16() as usize;
+
+        if buf.remaining() < name_len {
+            return Err(Error::InvalidHandshakeMessage(format!(
+                "Insufficient data for name: expected {} bytes, got {}",
+                name_len,
+                buf.remaining()
+            )));
+        }
+
+        let name_bytes = &buf[..name_len];
+        let name = str::from_utf8(name_bytes)
+            .map_err(|_| Error::InvalidHandshakeMessage("Invalid UTF-8 in node name".to_string()))?
+            .to_owned();
+
+        Ok(Self {
+            flags,
+            challenge,""", """        let flags = DistributionFlags::new(buf.get_u64());
+        let creation = buf.get_u32();
+        let challenge = buf.get_u32();
+        let name_len = buf.get_u16() as usize;
+
+        if buf.remaining() < name_len {
+            return Err(Error::InvalidHandshakeMessage(format!(
+                "Insufficient data for name: expected {} bytes, got {}",
+                name_len,
+                buf.remaining()
+            )));
+        }
+
+        let name_bytes = &buf[..name_len];
+        let name = str::from_utf8(name_bytes)
+            .map_err(|_| Error::InvalidHandshakeMessage("Invalid UTF-8 in node name".to_string()))?
+            .to_owned();
+
+        Ok(Self {
+            flags,
+            challenge,""", 'Challenge::decode')
